@@ -133,7 +133,7 @@ class World:
         a, b = socket.socketpair()
         self.peer = b
         self.extra.append(b)
-        if endpoint == 'server':
+        if endpoint in ('server', 'server_closeall'):
             la, lb = socket.socketpair()
             self.kick = wrap(SListener, la)
             self.extra += [lb, self.kick]
@@ -247,8 +247,9 @@ def execute(program, prefix):
             return w
         evs = []
         for i, p in enumerate(payloads):
-            evs.append(write(w.sock, p) if endpoint == 'server' else write(p))
+            evs.append(write(w.sock, p) if endpoint.startswith('server') else write(p))
             if close_after == i + 1:
+                # server_closeall: the close event without a socket - the whole server, every connection (buffered data first)
                 evs.append(close(w.sock) if endpoint == 'server' else close())
         if mode == 'burst':
             for e in evs:
@@ -282,7 +283,7 @@ def execute(program, prefix):
         # nothing is written after the endpoint has closed: what it still holds for writing would go out on its next use
         if w.closed_at is not None or w.fatal is not None:
             held = None
-            if endpoint == 'server':
+            if endpoint.startswith('server'):
                 bufs = getattr(w.comp, '_buffers', None)
                 if bufs is not None and w.sock in bufs:
                     held = sum(len(x) for x in bufs[w.sock])
@@ -326,6 +327,13 @@ def programs(tier):
                 for ca in [None] + list(range(1, len(pl) + 1)):
                     for mode in ('burst', 'spread'):
                         yield (ep, pn, pl, ca, mode), k
+    # the whole server is closed (close event without a socket) while a connection still has data buffered
+    for pn in pollers:
+        for pl in payload_lists(maxn):
+            if not any(pl):
+                continue
+            for mode in ('burst', 'spread'):
+                yield ('server_closeall', pn, pl, len(pl), mode), k
     # File: text payloads with multi-byte characters (encoded by the component; the OS counts bytes, not characters)
     for pl in (('h\u00e9llo',), ('\u00e9', 'a\u20acb'), ('\u00e9\u00e9\u00e9', 'x')):
         for ca in (None, len(pl)):
